@@ -212,8 +212,10 @@ CLAIMED = {
         "Coq proof of the generic key level (aliases interchangeable for any schema and dictionary; the nine synonym tables well formed; every written key read) and of the text round trips of dictionary values (quantities, equations) + round-trip correspondence of physical content through dict / JSON text / files / multi-file layouts / aliases / omitted defaults",
         "Theorems (Props/C12.v, closed under the global context): for any schema (list of synonym lists) and any dictionary, renaming a key "
         "into another key that is a synonym of exactly the same fields changes neither acceptance nor the value read for any field; the "
-        "synonym tables of the nine readers are pairwise disjoint and every key emitted by a writer is the primary key of a field of its "
-        "reader (computation over the concrete tables); every quantity string and every equation string a writer produces reads back to "
+        "synonym tables of the twelve readers are pairwise disjoint, every key emitted by a writer is the primary key of a field of its "
+        "reader, every key a reader looks up is a primary key, every accepted field is looked up and every field is written "
+        "(computation over tables that harness/translate_schemas.py re-extracts from /repo's source with ast on every run, fail-closed: "
+        "a change of a synonym table, of a reader's look-ups or of a writer's keys re-opens these obligations); every quantity string and every equation string a writer produces reads back to "
         "the same value / unit / stoichiometry (C18, C19). PARTIAL AS A THEOREM: that the objects rebuilt by the real readers carry the "
         "original's physical content is not a theorem - no model of all nine object readers/writers was built - it is established by the "
         "correspondence: random networks, spaces (grid; graph with per-node and per-edge units), systems, scripts and Euler trajectories "
@@ -223,9 +225,9 @@ CLAIMED = {
         "omitted; the physical content (all quantities in SI, labels, stoichiometry, geometry, flags, unit systems, sampling parameters, "
         "processing mode, seed, times, data) of each result is compared with the original's in Coq.",
         "Trusted: Coq kernel + VM; harness/fingerprint.py (which fields constitute the physical content: bases of a unit with a zero "
-        "exponent are not compared, following Units.__eq__); sampled correspondence (150 objects quick, 3000 thorough); the synonym "
-        "tables in Model/Schemas.v were generated from the harness' list, which the correspondence exercises against the package alias by "
-        "alias; trajectories with a coarse-graining map and diverged (non-finite) trajectories are not generated / discarded.",
+        "exponent are not compared, following Units.__eq__); sampled correspondence (150 objects quick, 3000 thorough); the translator "
+        "harness/translate_schemas.py (Python ast -> Model/Schemas.v; it reads the literal synonym table passed to process_input_dict_keys, "
+        "string-literal look-ups on the processed dictionary and the writers' dictionary literals, and fails on anything else); trajectories with a coarse-graining map and diverged (non-finite) trajectories are not generated / discarded.",
         "DESIGN.md section 6 / C12"),
     "C13": (
         "Coq proof of layout (species-major index), value (SI of density x volume), units and get/set array laws + random-system correspondence",
